@@ -14,13 +14,13 @@ import (
 func init() {
 	eng.Register(&eng.Check{
 		ID:          "C10",
-		Rule:        "E2 language explorer over bytes: (a) ALL byte strings of length <=4 (thorough <=5) over a 31-symbol alphabet with one representative per lexical class of the grammar (a n o t i s 0 1 - . \" ` / ~ _ ( ) { } [ ] , = ! space backslash NUL 0xFF 0xC3(truncated lead byte) and the 2-byte e-acute); (b) every sequence of <=2 tokens of the extended C15 token alphabet and <=3 of the base alphabet, all gap patterns; (c) every derivation of the C15 derivation set with one bad element (NUL, 0xFF, 0xC3, a lone quote of either kind, \"\\x\", \"\\400\", \"\\\", newline, [, (, {) injected at EVERY byte position; oracle on the real code: CreateEvaluator, CreateFilter, grammar.Parse never panic; evaluator xor error (nil filter only for \"\"); Parse error is nil exactly when CreateEvaluator accepts, then its value is a non-nil Expression; every accepted evaluator evaluates 13 probe data (strings under every name twice in a row, non-empty lists and maps under every name) (maps / lists / structs with every scalar kind incl. unsigned, float, bool, nil) (err => false, no panic), executes as a filter and its tree dumps without panic. Distinct by construction within each family; non-trivial = input accepted (the evaluator was exercised) or rejected with a nil result as required (both directions are meaningful; counted: accepted ones).",
+		Rule:        "E2 language explorer over bytes: (a) ALL byte strings of length <=4 (thorough <=5) over a 32-symbol alphabet with one representative per lexical class of the grammar (a n o t i s 0 1 - . \" ` / ~ _ ( ) { } [ ] , = ! space backslash NUL 0xFF 0xC3(truncated lead byte) and the 2-byte e-acute); (b) every sequence of <=2 tokens of the extended C15 token alphabet and <=3 of the base alphabet, all gap patterns; (c) every derivation of the C15 derivation set with one bad element (NUL, 0xFF, 0xC3, a lone quote of either kind, \"\\x\", \"\\400\", \"\\\", newline, [, (, {) injected at EVERY byte position; oracle on the real code: CreateEvaluator, CreateFilter, grammar.Parse never panic; evaluator xor error (nil filter only for \"\"); Parse error is nil exactly when CreateEvaluator accepts, then its value is a non-nil Expression; every accepted evaluator evaluates 13 probe data (strings under every name twice in a row, non-empty lists and maps under every name) (maps / lists / structs with every scalar kind incl. unsigned, float, bool, nil) (err => false, no panic), executes as a filter and its tree dumps without panic. Distinct by construction within each family; non-trivial = input accepted (the evaluator was exercised) or rejected with a nil result as required (both directions are meaningful; counted: accepted ones).",
 		Assumptions: []string{"bounded: strings over class representatives, not all 256 byte values", "coverage-guided fuzzing (a different family) is deliberately not used"},
 		Run:         runC10,
 	})
 }
 
-var c10Alphabet = []string{"a", "n", "o", "t", "i", "s", "0", "1", "-", ".", "\"", "`", "/", "~", "_", "(", ")", "{", "}", "[", "]", ",", "=", "!", " ", "\\", "\x00", "\xff", "\xc3", "é", "\n"}
+var c10Alphabet = []string{"a", "n", "o", "t", "i", "s", "0", "1", "-", ".", "\"", "`", "/", "~", "_", "(", ")", "{", "}", "[", "]", ",", "=", "!", " ", "\\", "\x00", "\xff", "\xc3", "é", "\n", "\ufffd"}
 
 var c10Probes = []interface{}{
 	nil, 1, "a", map[string]interface{}{"a": 1, "n": "s", "o": []interface{}{1, nil}, "t": map[string]interface{}{"a": "a"}, "i": nil, "s": "", "": 1},
@@ -218,7 +218,9 @@ func runC10(c *eng.Ctx) {
 	if c.Want("f", 3) {
 		bads := []string{"\x00", "\xff", "\xc3", "\"", "`", "\"\\x\"", "\"\\400\"", "\\", "\n", "[", "(", "{", "}", ")", "]",
 			// blanks that are NOT whitespace of the grammar ([ \t\r\n] only)
-			"\v", "\f", "\u0085", "\u00a0", "\u2028", "\u3000", "\ufeff", "\u200b"}
+			"\v", "\f", "\u0085", "\u00a0", "\u2028", "\u3000", "\ufeff", "\u200b",
+			// perfectly valid runes that careless validation confuses with errors or strips
+			"\ufffd", "\u00ad", "\u200d", "\U000e0067"}
 		idx := 0
 		for _, d := range c15Derivations(c.Thorough()) {
 			for pos := 0; pos <= len(d); pos++ {
